@@ -117,9 +117,25 @@ class ParserCorr(Corr):
         if case["parser"] == "TransformKey(src)" and out["kind"] == "member":
             from perception_eval.common.transform import TransformKey
             from perception_eval.common.schema import FrameID
-            a = TransformKey(case["input"], "map")
             b = TransformKey(E[out["key"]], FrameID.MAP)
-            out["same_as_enum_spelling"] = bool(a == b and hash(a) == hash(b) and a.src is b.src and a.dst is b.dst)
+            same = True
+            # every mix of spellings of the two arguments, in both positions, must give the same key
+            for mk in (lambda: TransformKey(case["input"], "map"), lambda: TransformKey(case["input"], FrameID.MAP),
+                       lambda: TransformKey(E[out["key"]], "map")):
+                try:
+                    a = mk()
+                    same = same and bool(a == b and hash(a) == hash(b) and a.src is b.src and a.dst is b.dst)
+                except Exception:
+                    same = False
+            b2 = TransformKey(FrameID.MAP, E[out["key"]])
+            for mk in (lambda: TransformKey("map", case["input"]), lambda: TransformKey(FrameID.MAP, case["input"]),
+                       lambda: TransformKey("map", E[out["key"]])):
+                try:
+                    a = mk()
+                    same = same and bool(a == b2 and hash(a) == hash(b2) and a.src is b2.src and a.dst is b2.dst)
+                except Exception:
+                    same = False
+            out["same_as_enum_spelling"] = same
         return out
 
     def _model_result(self, obs):
